@@ -71,8 +71,26 @@ func c26NodeCfg(x *scn.Exec, id string, c *node.Cfg) {
 	c.Policy = pol
 }
 
+// operator actions on the running policy (the reloadpolicy / allow-list RPCs) before the refund
+var c26OperatorOps = []string{"reload", "allow_other", "remove_other", "disable_enable"}
+
+const c26Other = "03cccccccccccccccccccccccccccccccccccccccccccccccccccccccccccccccc"
+
 func c26Enabled(x *scn.Exec) []mc.Event {
 	sm := x.SwapOf(x.A)
+	if sm != nil && sm.Current != swap.State_ClaimedCsv && !sm.IsFinished() && !x.A.Life.Dead() {
+		done, _ := x.Ctx["c26ops"].(string)
+		if strings.Count(done, ",") < 2 {
+			var out []mc.Event
+			for _, op := range c26OperatorOps {
+				if !strings.Contains(done, op+",") {
+					out = append(out, mc.Event{Name: "c26op", Arg: op, Dev: 1})
+				}
+			}
+			return out
+		}
+		return nil
+	}
 	if sm == nil || sm.Current != swap.State_ClaimedCsv || x.A.Life.Dead() {
 		return nil
 	}
@@ -83,6 +101,31 @@ func c26Enabled(x *scn.Exec) []mc.Event {
 }
 
 func c26Apply(x *scn.Exec, e mc.Event) bool {
+	if e.Name == "c26op" {
+		pol, _ := x.Ctx["c26pol"].(*policy.Policy)
+		done, _ := x.Ctx["c26ops"].(string)
+		x.Ctx["c26ops"] = done + e.Arg + ","
+		if pol == nil {
+			return true
+		}
+		var err error
+		switch e.Arg {
+		case "reload":
+			err = pol.ReloadFile()
+		case "allow_other":
+			err = pol.AddToAllowlist(c26Other)
+		case "remove_other":
+			_ = pol.AddToAllowlist(c26Other)
+			err = pol.RemoveFromAllowlist(c26Other)
+		case "disable_enable":
+			if err = pol.DisableSwaps(); err == nil {
+				err = pol.EnableSwaps()
+			}
+		}
+		// whether the operator action itself works is C25's business; here only the quarantine is judged
+		_ = err
+		return true
+	}
 	if e.Name != "c26probe" {
 		return false
 	}
@@ -210,7 +253,7 @@ func oracleC26(x *scn.Exec) []mc.Violation {
 func init() {
 	register(&PropSpec{
 		ID: "C26", Level: "model_checking",
-		Rule: "explicit-state BFS of both maker roles from the announcement with a silent / cancelling / misbehaving peer to every history ending in a CSV refund (real policy.Policy on a real file as the swap service's policy); in each such state, also after a restart that re-reads the file: the file content, a policy re-created from it, incoming swap-in/out requests, local SwapIn/SwapOut and poll / request_poll through a real peersync.PeerSync are probed",
+		Rule: "explicit-state BFS of both maker roles from the announcement with a silent / cancelling / misbehaving peer and up to two operator actions on the running policy (reload, allow-list add / remove of another peer, disable+enable) to every history ending in a CSV refund (real policy.Policy on a real file as the swap service's policy); in each such state, also after a restart that re-reads the file: the file content, a policy re-created from it, incoming swap-in/out requests, local SwapIn/SwapOut and poll / request_poll through a real peersync.PeerSync are probed",
 		Families: func(tier string) []Family {
 			return mkFamilies(famOpt{announced: true, chains: bothChain, roles: makers, backends: []bool{false},
 				flags:  scn.Flags{Blocks: true, Time: true, Restart: true, Drop: true, Inject: true, MaxTime: 2, MaxBlocks: 2, NoWinJump: true},
@@ -222,7 +265,8 @@ func init() {
 					f.Cfg.ExtraKey = func(x *scn.Exec) string {
 						n, _ := x.Ctx["c26probed"].(int)
 						raw, _ := os.ReadFile(c26PolicyPath(x))
-						return fmt.Sprintf("|probed=%d file=%q", n, string(raw))
+						ops, _ := x.Ctx["c26ops"].(string)
+						return fmt.Sprintf("|probed=%d ops=%s file=%q", n, ops, string(raw))
 					}
 				}})
 		},
